@@ -732,7 +732,7 @@ def run_c18(tier: str) -> int:
                              "tool's reflection binary)} on real JSON values - same frames for every in-range value, same name and value "
                              "for the canonical frame, same verdict for every (sid, 4 bus bytes, dlc) with zero payload; nothing modelled",
         "outside": "part 1 models the json <-> typed value conversions (<S>::FromJson, <S>::DecodeJson; part 2 runs them); bindings "
-                   "without a bus, renamed bindings ('as'), payloads above 8 bytes, bytes of frame.data beyond dlc",
+                   "without a bus, payloads above 8 bytes, bytes of frame.data beyond dlc",
     }
     rep.stubs = ["part 1 only: <S>::FromJson(json) returns the typed value built by the harness from a symbolic argument area; "
                  "<S>::DecodeJson() dumps the typed value, returns json null",
